@@ -414,28 +414,155 @@ func RuleFPresence(c *core.Ctx) {
 		"@performance": p.Field(pkgDirectives, "Addons", "Performance"),
 		"@accrue":      p.Field(pkgDirectives, "Addons", "Accrual"),
 	}
-	n := 0
+	rangeT := p.NamedType(pkgDirectives, "Range")
+	// the functions of the printer reachable from the per-directive printers
+	scope := map[*ssa.Function]bool{}
+	var add func(fn *ssa.Function, depth int)
+	add = func(fn *ssa.Function, depth int) {
+		if fn == nil || scope[fn] || fn.Blocks == nil || core.PkgPathOf(fn) != pkgSPrinter || depth > 4 {
+			return
+		}
+		scope[fn] = true
+		core.EachInstr(fn, func(ins ssa.Instruction) {
+			if call, ok := ins.(*ssa.Call); ok {
+				add(call.Call.StaticCallee(), depth+1)
+			}
+		})
+	}
 	for _, fn := range printerFor(p, d) {
+		add(fn, 0)
+	}
+	// is cond a test of the presence of the annotation held in field fv?
+	fromField := func(v ssa.Value, fv *types.Var) bool {
+		for x := range originSet(p, v, 0) {
+			if fa, ok := x.(*ssa.FieldAddr); ok && core.FieldOf(fa) == fv {
+				return true
+			}
+			if f, ok := x.(*ssa.Field); ok && core.FieldOf(f) == fv {
+				return true
+			}
+			// the annotation handed to a helper as a parameter of its type
+			if prm, ok := x.(*ssa.Parameter); ok && types.Identical(prm.Type(), fv.Type()) {
+				return true
+			}
+		}
+		return false
+	}
+	isRangeTest := func(callee *ssa.Function) bool {
+		if callee == nil || core.PkgPathOf(callee) != pkgDirectives || callee.Signature.Recv() == nil {
+			return false
+		}
+		return isNamed(derefType(callee.Signature.Recv().Type()), rangeT) && (callee.Name() == "Empty" || callee.Name() == "Length")
+	}
+	presence := func(cond ssa.Value, fv *types.Var) (isTest bool, wrong string) {
+		if u, ok := cond.(*ssa.UnOp); ok && u.Op == token.NOT {
+			cond = u.X
+		}
+		if bo, ok := cond.(*ssa.BinOp); ok {
+			// r.Length() != 0 and the like
+			for _, o := range []ssa.Value{bo.X, bo.Y} {
+				if cl, ok := o.(*ssa.Call); ok && isRangeTest(cl.Call.StaticCallee()) && fromField(cl.Call.Args[0], fv) {
+					return true, ""
+				}
+			}
+		}
+		cl, ok := cond.(*ssa.Call)
+		if !ok || cl.Call.StaticCallee() == nil {
+			return false, ""
+		}
+		callee := cl.Call.StaticCallee()
+		if core.PkgPathOf(callee) == pkgDirectives && callee.Name() == "Empty" && !isRangeTest(callee) && len(cl.Call.Args) > 0 && fromField(cl.Call.Args[0], fv) {
+			return false, "a test by " + core.FuncName(callee) + ", which is not the emptiness of the annotation's range"
+		}
+		if isRangeTest(callee) && fromField(cl.Call.Args[0], fv) {
+			return true, ""
+		}
+		// a helper of the printer that asks the range: present(r) { return r.Length() != 0 }
+		if core.PkgPathOf(callee) == pkgSPrinter && callee.Blocks != nil && onlyBoolResults(callee) {
+			asks := false
+			core.EachInstr(callee, func(ins ssa.Instruction) {
+				if c2, ok := ins.(*ssa.Call); ok && isRangeTest(c2.Call.StaticCallee()) {
+					asks = true
+				}
+			})
+			for _, a := range cl.Call.Args {
+				if asks && fromField(a, fv) {
+					return true, ""
+				}
+			}
+		}
+		return false, ""
+	}
+	var guarded func(fn *ssa.Function, at *ssa.BasicBlock, fv *types.Var, depth int) (bool, []string)
+	guarded = func(fn *ssa.Function, at *ssa.BasicBlock, fv *types.Var, depth int) (bool, []string) {
+		var bad []string
+		okTest := false
+		for _, b := range fn.Blocks {
+			iff, isIf := b.Instrs[len(b.Instrs)-1].(*ssa.If)
+			if !isIf {
+				continue
+			}
+			if ctl, _ := core.Controls(b, at); !ctl || core.IsLoopExitTest(b, at) {
+				continue
+			}
+			if is, wrong := presence(iff.Cond, fv); is {
+				okTest = true
+				continue
+			} else if wrong != "" {
+				bad = append(bad, wrong)
+				continue
+			}
+			cond := iff.Cond
+			if u, ok := cond.(*ssa.UnOp); ok && u.Op == token.NOT {
+				cond = u.X
+			}
+			if bo, ok := cond.(*ssa.BinOp); ok && (core.IsNilConst(bo.X) || core.IsNilConst(bo.Y)) {
+				continue // error test
+			}
+			bad = append(bad, describeValue(p, iff.Cond))
+		}
+		if okTest || len(bad) > 0 || depth > 3 {
+			return okTest, bad
+		}
+		// unconditional here: every caller in the printer must be guarded
+		callers := 0
+		all := true
+		for g := range scope {
+			core.EachInstr(g, func(ins ssa.Instruction) {
+				call, ok := ins.(*ssa.Call)
+				if !ok || call.Call.StaticCallee() != fn {
+					return
+				}
+				callers++
+				ok2, bad2 := guarded(g, call.Block(), fv, depth+1)
+				bad = append(bad, bad2...)
+				if !ok2 {
+					all = false
+				}
+			})
+		}
+		return callers > 0 && all, bad
+	}
+	n := 0
+	var fns []*ssa.Function
+	for fn := range scope {
+		fns = append(fns, fn)
+	}
+	sort.Slice(fns, func(i, j int) bool { return fns[i].String() < fns[j].String() })
+	for _, fn := range fns {
 		core.EachInstr(fn, func(ins ssa.Instruction) {
 			call, ok := ins.(*ssa.Call)
-			if !ok {
+			if !ok || call.Call.StaticCallee() == nil {
 				return
 			}
-			// a write of an "@..." constant here, or a call to a helper that writes one
+			// a direct write of an "@..." constant
 			kw := ""
-			var strs []string
-			if callee := call.Call.StaticCallee(); callee != nil {
-				if core.PkgPathOf(callee) == pkgSPrinter {
-					constStringsWritten(p, callee, map[*ssa.Function]bool{}, &strs)
-				}
-				for _, a := range call.Call.Args {
-					strs = append(strs, constParts(a, 0)...)
-				}
-			}
-			for _, s := range strs {
-				for k := range addonField {
-					if strings.HasPrefix(s, k) {
-						kw = k
+			for _, a := range call.Call.Args {
+				for _, s := range constParts(a, 0) {
+					for k := range addonField {
+						if strings.HasPrefix(s, k) {
+							kw = k
+						}
 					}
 				}
 			}
@@ -444,50 +571,10 @@ func RuleFPresence(c *core.Ctx) {
 			}
 			n++
 			key := fmt.Sprintf("%s:%s printed iff present", core.FuncName(fn), kw)
-			fv := addonField[kw]
-			var bad []string
-			okTest := false
-			for _, b := range fn.Blocks {
-				iff, isIf := b.Instrs[len(b.Instrs)-1].(*ssa.If)
-				if !isIf {
-					continue
-				}
-				if ctl, _ := core.Controls(b, call.Block()); !ctl || core.IsLoopExitTest(b, call.Block()) {
-					continue
-				}
-				cond := iff.Cond
-				if u, ok := cond.(*ssa.UnOp); ok && u.Op == token.NOT {
-					cond = u.X
-				}
-				if cl, ok := cond.(*ssa.Call); ok && cl.Call.StaticCallee() != nil && core.PkgPathOf(cl.Call.StaticCallee()) == pkgDirectives && cl.Call.StaticCallee().Name() == "Empty" {
-					// the emptiness of the annotation's *range* (Start == End): a method of the
-					// same name on the annotation type itself answers another question
-					if recv := cl.Call.StaticCallee().Signature.Recv(); recv == nil || !isNamed(derefType(recv.Type()), p.NamedType(pkgDirectives, "Range")) {
-						bad = append(bad, "a test by "+core.FuncName(cl.Call.StaticCallee())+", which is not the emptiness of the annotation's range")
-						continue
-					}
-					has := false
-					for v := range originSet(p, cl.Call.Args[0], 0) {
-						if fa, ok := v.(*ssa.FieldAddr); ok && core.FieldOf(fa) == fv {
-							has = true
-						}
-						if f, ok := v.(*ssa.Field); ok && core.FieldOf(f) == fv {
-							has = true
-						}
-					}
-					if has {
-						okTest = true
-						continue
-					}
-				}
-				if bo, ok := cond.(*ssa.BinOp); ok && (core.IsNilConst(bo.X) || core.IsNilConst(bo.Y)) {
-					continue // error test
-				}
-				bad = append(bad, describeValue(p, iff.Cond))
-			}
+			okTest, bad := guarded(fn, call.Block(), addonField[kw], 0)
 			switch {
 			case len(bad) > 0:
-				c.Ob(rule, key, call.Pos(), core.FuncName(fn), core.Violated, "the "+kw+" annotation is printed under a condition other than the presence of the annotation ("+strings.Join(bad, "; ")+"): an annotation that is present can be dropped by format")
+				c.Ob(rule, key, call.Pos(), core.FuncName(fn), core.Violated, "the "+kw+" annotation is printed under a condition other than the presence of the annotation ("+strings.Join(uniq(bad), "; ")+"): an annotation that is present can be dropped by format")
 			case !okTest:
 				c.Ob(rule, key, call.Pos(), core.FuncName(fn), core.Violated, "the "+kw+" annotation is printed unconditionally")
 			default:
